@@ -14,9 +14,9 @@ fingerprint breaks this theorem without an input having to hit it — and a few 
 are evaluated end to end on the model by the kernel (`grammar_samples_detected`).
 
 **Proved for the enumerated grammar in every letter case (`grammar_detected_any_case`):** for each of
-the 49 skeletons × 6 context prefixes, with every one of the 12 tails (words separated by one space) and
-with every one of the 13 separators (no tail) — 7 350 lower-case members, each evaluated end to end on
-the model by the kernel (`Proofs/GrammarEval`, 49 modules; plus 5 parenthesis-closing skeletons × 6 prefixes × 25 and
+the 51 skeletons × 6 context prefixes, with every one of the 12 tails (words separated by one space) and
+with every one of the 13 separators (no tail) — 7 650 lower-case members, each evaluated end to end on
+the model by the kernel (`Proofs/GrammarEval`, 51 modules; plus 5 parenthesis-closing skeletons × 6 prefixes × 25 and
 the 74-entry comment-truncation table, `paren_and_truncation_detected`) — *every* re-assignment of ASCII letter case
 of the member is reported as SQLi. The case dimension is closed universally by C10 (`isSQLi` commutes
 with lower-casing outside the exempt positions, and the kernel checks that no member has one), not by
@@ -70,7 +70,7 @@ open Spec.SqliGrammar in
 theorem grammar_detected_any_case : grammar_detected_any_case_statement := by
   intro sk hsk p hp
   obtain ⟨k, hk, hget⟩ := List.mem_iff_getElem.mp hsk
-  have hk' : k < 49 := by rw [← skeletons_length]; exact hk
+  have hk' : k < 51 := by rw [← skeletons_length]; exact hk
   have hskel : skel k = sk := by
     unfold skel
     rw [List.getElem?_eq_getElem hk, hget]; rfl
